@@ -109,6 +109,13 @@ def condition_rules(rep, f):
         rep.ob("condition.%s" % name, "evaluate_cond: %s" % name, seen.get(name) is True,
                "the macro condition operator %s is not evaluated as documented (==, !=, ~~ regex match, !~ its negation) on the argument bound to the left-hand side" % name,
                key="cond:%s" % name, file=b.relfile(), line=b.line, fn=b.path)
+    rm = f.one(r"MacroExpander::re_match$")
+    oks = [r[0] for r in symex.term_eval(f, rm, inline=lambda p: False) if r[0] and r[0][0] == "adt" and r[0][1].endswith("::Ok")]
+    shape = [symex.show_term(v) for v in oks]
+    good = bool(oks) and all(re.fullmatch(r"Ok\{regex::Regex::is_match\(\(regex::Regex::new\(.*deref\(arg4\)\) as Ok\)\.0, .*deref\(arg3\)\)\}", x) for x in shape)
+    rep.ob("condition.regex-match-is-unanchored-search", "re_match -> %s" % [x[:90] for x in shape], good,
+           "`~~` is not evaluated as Regex::new(pattern).is_match(argument) on every successful path (e.g. a literal fast path turns the "
+           "unanchored search into an equality test)", key="cond:re_match", file=rm.relfile(), line=rm.line, fn=rm.path)
     rep.ob("condition.absent-keeps-alternative", "evaluate_cond: no condition -> Ok(true)", bool(none_ok),
            "an alternative without a condition is not kept", key="cond:none", file=b.relfile(), line=b.line, fn=b.path)
 
